@@ -75,6 +75,7 @@ def build(uni):
         "GOceanConfig.grid_properties": h_grid_props,
         "Node.ancestor": h_ancestor,
         "ScopingNode.symbol_table": h_symtab,
+        "InvokeSchedule.symbol_table": h_symtab,
         "SymbolTable.argument_list": h_arglist,
         "DataSymbol.datatype": h_datatype,
     })
